@@ -12,6 +12,7 @@ import Rl4co.Proofs.Sort
 import Rl4co.Proofs.TspfamParams
 
 namespace Rl4co.Atsp
+open Rl4co.Tspfam
 
 /-- **C06 (ATSP), completeness.** -/
 theorem check_complete (i : Inst) {as : List Nat} (hf : Spec.Atsp.Feasible i.n as) :
@@ -47,6 +48,21 @@ theorem check_iff (i : Inst) (as : List Nat) :
 theorem feasible_iff_check_and_width (i : Inst) (as : List Nat) :
     Spec.Atsp.Feasible i.n as ↔ (check i as = true ∧ as.length = i.n) :=
   ⟨fun hf => ⟨check_complete i hf, Spec.Tsp.Feasible.length_eq hf⟩, fun ⟨hc, hl⟩ => check_sound_partial i hl hc⟩
+
+theorem checkWith_true_iff (i : Inst) (as : List Nat) :
+    checkWith true i as = true ↔ Spec.Atsp.Feasible i.n as := by
+  rw [checkWith_true_eq, Bool.and_eq_true, decide_eq_true_eq, sortedIsRange_iff]
+  show _ ↔ Spec.Tsp.Feasible i.n as
+  rw [Spec.Tsp.feasible_iff_perm]
+  constructor
+  · exact fun h => h.2
+  · intro h; exact ⟨by simpa using h.length_eq, h⟩
+
+theorem width_source_is_action_tensor : Params.atspCheckWidthFromInst = false := rfl
+
+theorem check_sound_complete_of_fixed (hfix : Params.atspCheckWidthFromInst = true) (i : Inst) (as : List Nat) :
+    check i as = true ↔ Spec.Atsp.Feasible i.n as := by
+  rw [check, hfix]; exact checkWith_true_iff i as
 
 /-- Non-vacuity. -/
 example : check ⟨3, fun _ _ => 0⟩ [2, 0, 1] = true :=
